@@ -105,8 +105,8 @@ def meta(tier):
                 'drawn from start x kind/length options, each placed by its own origin; expected rejection iff two lines of '
                 'length >= 1 share an address, otherwise the image is the union; non-trivial = ranges touch or overlap, or a '
                 'zero-length line lies inside another range; every pair (and every touching triple) is run a second time with '
-                '--no-binary and one of the four pretty-print formats, or with an image window (-s / -e) that contains none of the lines, judged on acceptance only; plus every program of up to 4 (thorough 5) lines over bytes / fills / a macro / zone switches / includes of a plain file and of a file that switches zone '
-                'without any origin directive or predefined data (collisions through overlapping zones and code growing into a zone only); states = distinct sets of occupied (address, owner) cells',
+                '--no-binary and one of the four pretty-print formats, with --no-binary alone, or with an image window (-s / -e) that contains none of the lines, judged on acceptance only; plus every program of up to 4 (thorough 5) lines over bytes / fills / a macro / zone switches / includes of a plain file and of a file that switches zone '
+                'without any origin directive or predefined data (collisions through overlapping zones and code growing into a zone only); plus every ordered pair of lines placed in the last 6 addresses of an 8- / 16-bit address space; states = distinct sets of occupied (address, owner) cells',
         'bounds': {'starts': 'pairs 0..6; triples 0..3 (quick) / 0..6 (thorough)',
                    'kinds': ['.byte x1..3', '.fill 0|1|3', '.zerountil (len 2, len 0)', 'nop', 'ldi', 'jmp', 'm2 (macro of two 12-bit steps)',
                              '.org k "z1" (z1=2..9)', '.org k "z2" (z2=4..12, overlapping z1)', '.org k "z3" (z3=0..2, sharing one address with z1)', '.org 0 "z4" (z4=3..3)', 'line in an included file',
@@ -136,6 +136,7 @@ def relation(lines):
 def shard(acc, tier, idx, n):
     q = tier == 'quick'
     sequential_programs(acc, idx, n, q)
+    top_of_memory(acc, idx, n)
     isa_cache = {}
     ctr = 0
     pair_opts = line_options(range(0, 7), q)
@@ -166,12 +167,15 @@ def shard(acc, tier, idx, n):
             if ref.status != 'DC' and (k == 2 or touch):
                 # the same program with --no-binary and a pretty print only: acceptance must not depend on the outputs requested
                 fmt = FORMATS[ctr % len(FORMATS)]
-                if (ctr // len(FORMATS)) % 2 == 0:
+                if (ctr // len(FORMATS)) % 3 == 0:
                     case2 = Case(isa_cache[key], R.render_files(files), binary=False, pretty=fmt)
                     mode = f'--no-binary -p -t {fmt}'
+                elif (ctr // len(FORMATS)) % 3 == 2:
+                    case2 = Case(isa_cache[key], R.render_files(files), binary=False)          # nothing at all is written
+                    mode = '--no-binary'
                 else:
                     # ... or with an image window that lies entirely above (or below) every line of the program
-                    above = (ctr // (2 * len(FORMATS))) % 2 == 0
+                    above = (ctr // (3 * len(FORMATS))) % 2 == 0
                     case2 = Case(isa_cache[key], R.render_files(files), pretty=fmt, start=0x60 if above else 0, end=None if above else 0)
                     mode = f'-s 96 -p -t {fmt}' if above else f'-e 0 -p -t {fmt}'
                 out2 = acc.run(case2)
@@ -220,6 +224,39 @@ def sequential_programs(acc, idx, n, q):
         ref, out, msg = run_program(acc, params, isa, files,
                                     clause=lambda r: 'overlap-rejected' if r.status == 'REJECT' else 'disjoint-accepted',
                                     nontrivial=(('seq', h) if any(j >= 5 for j in h) else None), sample=(len(h) == depth and sum(h) % 97 == 0))
+
+
+def top_of_memory(acc, idx, n):
+    """Two lines near the last address of an 8-bit and a 16-bit address space, one of them ending exactly on it, in both source orders:
+    rejected iff they share an address (or a byte would lie beyond the last address)."""
+    ctr = 0
+    for bits in (8, 16):
+        top = (1 << bits) - 1
+        params = R.Params(address_size=bits, endian='little', origin=0)
+        isa = probe_isa(bits, 'little')
+        opts = []
+        for s0 in range(top - 5, top + 1):
+            for ln in (1, 2, 3):
+                opts.append(('bytes', s0, ln))
+            opts.append(('fill', s0, 2))
+            opts.append(('nop', s0, 1))
+        opts.append(('zerountil', top - 3, 4))
+        for a, b in itertools.product(opts, repeat=2):
+            ctr += 1
+            if ctr % n != idx:
+                continue
+            main = []
+            for i, (kind, s0, ln) in enumerate((a, b)):
+                m = 0x30 + 0x10 * i
+                main.append(('org', s0, None))
+                main.append({'bytes': ('data', 1, [m + j for j in range(ln)]), 'fill': ('fill', ln, m), 'nop': ('nop',),
+                             'zerountil': ('zerountil', top)}[kind])
+            files = {'main.asm': main}
+            ref, out, msg = run_program(acc, params, isa, files, start=top - 7,
+                                        clause=lambda r: 'overlap-rejected' if r.status == 'REJECT' else 'disjoint-accepted',
+                                        nontrivial=('top', bits, a, b), sample=(ctr % 499 == 0))
+            if ref.status != 'DC':
+                acc.state(('top', bits, a, b))
 
 
 def judge(spec, outcomes):
